@@ -1,6 +1,7 @@
 package actionlint
 
 import (
+	"errors"
 	"fmt"
 	"math"
 	"regexp"
@@ -236,7 +237,10 @@ func (p *parser) parseFloat(n *yaml.Node) *Float {
 	}
 
 	f, err := strconv.ParseFloat(n.Value, 64)
-	if err != nil || math.IsNaN(f) {
+	if err == nil && math.IsNaN(f) {
+		err = errors.New("the value is not a number")
+	}
+	if err != nil {
 		p.errorf(n, "invalid float value: %q: %s", n.Value, err.Error())
 		return nil
 	}
